@@ -15,6 +15,8 @@ def _load(prop):
 
 C08 = _load("C08")
 C02 = _load("C02")
+C14 = _load("C14")
+JOIN_RANGES = {"quick": [(0, 2)], "thorough": [(0, 2), (1, 3), (0, 3), (1, 2)]}
 QUICK_BATCH = ("mid_longer", "mid_delete", "start_delete", "end_longer", "two_chars_to_one", "expand_1_to_3")
 QUICK_LATTICE = ("2c_minimal",)
 
@@ -35,7 +37,10 @@ def generate(ctx):
     lat_tpl = re.sub(r"^[ \t]*//@H c02_(step|eos)\w*[ \t]*\n.*?^[ \t]*//@END[ \t]*\n", "", lat_tpl, flags=re.M | re.S)
     gens = [C08.gen_shape(n, s, e)[0].replace("c08_batch_", "c01_batch_") for (n, s, e) in _batch_shapes(ctx)]
     lat = [C02.gen_shape(n, c, nodes)[0].replace("c02_whole_", "c01_path_") for (n, c, nodes) in _lattice_shapes(ctx)]
-    return {"input_text__buffer__edit": edit_tpl.replace("/*@GENERATED@*/", "\n\n".join(gens)),
+    join_tpl = open(os.path.join(HERE, "..", "C14", "analysis__node.rs")).read()
+    join_tpl = join_tpl.replace("/*@MOD@*/verif_c14", "verif_c01_join").replace("/*@GENERATED@*/", C14.gen_text("c01_join", JOIN_RANGES[ctx.tier]))
+    return {"analysis__node": join_tpl,
+            "input_text__buffer__edit": edit_tpl.replace("/*@GENERATED@*/", "\n\n".join(gens)),
             "analysis__lattice": lat_tpl.replace("/*@GENERATED@*/", "\n\n".join(lat))}
 
 
@@ -58,6 +63,10 @@ def harnesses(ctx):
                       kernel="C01 A/B sub-tokens partition the parent's range: intermediate ends from the key length, the last sub-token inherits the parent end",
                       assumptions=["the first unit's key length does not exceed the parent (declared units concatenate to the word's key)", "ASCII text (bytes = characters)"],
                       stubs=["alloc::fmt::format -> empty string"], fs_array=True, timeout_s=1200, mem_gb=16))
+    for h in C14.gen_harnesses("c01_join", JOIN_RANGES[ctx.tier]):
+        h.rust_mod = "verif_c01_join"
+        h.kernel = "C01 joined nodes take the begin of the first and the end of the last merged node (characters and bytes), whatever the dictionary-side strings are"
+        hs.append(h)
     for (n, s, e) in _batch_shapes(ctx):
         _, target = C08.gen_shape(n, s, e)
         heavy = len(e) >= 2
@@ -78,15 +87,15 @@ def harnesses(ctx):
 
 OUTSIDE = ["the end-to-end statement (regex/aho-corasick/NFKC plugins, dictionaries) is NOT decided; only the three links and their written-down chaining",
            "that plugins emit sorted non-overlapping edits on boundaries", "resolve_best_path's char->byte conversion of node ranges (table correctness: C08-d)",
-           "joined nodes (C14): not applicable; A/B sub-nodes only at the iterator level (c01_split_partition), not which words carry which splits (C09)", "an input whose normalised form is empty"]
+           "which tokens the path-rewrite plugins join (C14: only the merge kernels c01_join_* are decided); A/B sub-nodes only at the iterator level (c01_split_partition), which words carry which splits is C09", "an input whose normalised form is empty"]
 EXPLANATION = "Compositional: partition transfer through the offset map, invariant preservation per edit batch, gap-free best path."
 MANIFEST = dict(
     design_ref="DESIGN.md §4 C01",
-    technique="bounded model checking (Kani/CBMC/cadical), compositional: symbolic offset maps through InputBuffer's original-range accessors, inductive step through resolve_edits, whole small lattices for path contiguity",
+    technique="bounded model checking (Kani/CBMC/cadical), compositional: symbolic offset maps through InputBuffer's original-range accessors, inductive step through resolve_edits, whole small lattices for path contiguity, the split iterator and the two merge kernels with symbolic ranges",
     text=("The end-to-end statement is out of symbolic reach (regex, NFKC, dictionaries); what is decided are the three links it rests on, each for all values of its symbolic inputs: "
           "(a) for ANY offset map satisfying the invariant and any consecutive token ranges of the normalised text, begin/end/surface computed by the real accessors are adjacent, start at 0, "
           "end at the input length, lie on character boundaries and add up to the input; (b) every edit batch of an enumerated shape family maps any invariant-satisfying map to an "
-          "invariant-satisfying map (so the invariant holds after any number of plugin rewrites); (c) the path the lattice returns is gap-free from 0 to the text end. "
+          "invariant-satisfying map (so the invariant holds after any number of plugin rewrites); (c) the path the lattice returns is gap-free from 0 to the text end; (d) A/B sub-nodes partition their parent and (e) a node joined by a path-rewrite plugin begins where the first and ends where the last merged node did, in characters and bytes, whatever the dictionary-side strings are. "
           "The chaining argument is written in DESIGN.md, not machine-checked."),
-    note="Kernel-level and compositional; plugin behaviour, A/B splitting and path-rewrite joins are outside. Trusted: Kani/CBMC/cadical and the chaining argument.",
+    note="Kernel-level and compositional; plugin behaviour (which edits, which joins) is outside. Trusted: Kani/CBMC/cadical and the chaining argument.",
 )
